@@ -11,8 +11,8 @@ open MakoModel.Target MakoModel.Codegen
 
 variable (ts : List (Tmpl × Option Bool)) (k : Nat)
 
-theorem good_applyFilters (il ce : Bool) (fs : List Nat) (e : Expr) (h : GoodE il ce e = true) :
-    GoodE il ce (applyFilters fs e) = true := by
+theorem good_applyFilters (il ce cv : Bool) (fs : List Nat) (e : Expr) (h : GoodE il ce cv e = true) :
+    GoodE il ce cv (applyFilters fs e) = true := by
   induction fs generalizing e with
   | nil => exact h
   | cons f fs ih => exact ih (.filt f e) (by simpa [GoodE] using h)
@@ -24,25 +24,19 @@ theorem bal_next_nil {i top rest σ σ'} (b : Bal i top rest σ σ') (hn : σ.ne
 
 theorem RetE.of_ne {o : Outcome} (h : ∀ v, o ≠ .ret v) : RetE o := fun v hv => absurd hv (h v)
 
-/-- the layer a `<%call>` without nested defs hands to its callee -/
+/-- the layer a guarded `<%call>` hands to its callee -/
 theorem call_layer_rel (sc : Scope) (bodyArgs : List Name) (body : Tmpl) (mod : Nat)
-    (hg : Good (bodyScope sc body) false false body = true) :
+    (hg : Good (bodyScope sc body) false false true true body = true)
+    (hcb : GoodCB { sc with top := false } body = true) :
     LayerRel ⟨collectDefs (.seq (callDefs { sc with top := false } body)
                 (.defn 0 bodyArgs { ownLoops := ownsLoops sc body, deco := false, lex := true }
                    (.seq (.seq (bodyHoist (bodyScope sc body) body) (.prim .getWriter))
                          (.seq (stmts (bodyScope sc body) body) (.ret emptyStr))))), mod⟩
-      ((0, ⟨bodyArgs, noFlags, body, .body, mod⟩) :: Spec.callDefsOf mod body) := by
-  have hnd := nodefs_facts body (good_nodefs body (bodyScope sc body) _ _ rfl rfl hg)
-  intro x
-  simp only [collectDefs, isSkips_collect _ (hnd.callDefs _), List.nil_append, hnd.callDefsOf, lookup]
-  by_cases hx : x = 0
-  · subst hx
-    simp only [if_true, OptRel]
-    exact ⟨FunRel.body (bodyScope sc body) bodyArgs body (ownsLoops sc body) mod rfl rfl hg, by simp, by simp⟩
-  · simp [hx, OptRel]
+      ((0, ⟨bodyArgs, noFlags, body, .body, mod⟩) :: Spec.callDefsOf mod body) :=
+  ⟨sc, bodyArgs, body, by simp [collectDefs, bodyFun], rfl, hg, hcb⟩
 
 theorem rc_stmt (n : Nat) (ih : ∀ m, m < n + 1 → RC ts k m) : StmtRef ts k (n + 1) := by
-  intro t sc il bf l σ E i top rest o l' σ' hg hR hn hil hl hσ hb hw he ho
+  intro t sc il bf cv cb l σ E i top rest o l' σ' hg hR hn hil hl hσ hb hw he ho
   have A := ih n (Nat.lt_succ_self n)
   have G := all_good (progOf ts k) (codegen_cfg_ok ts k)
   have hN : NSRel σ.next [] := by rw [hn]; exact NSRel.nil
@@ -91,7 +85,7 @@ theorem rc_stmt (n : Nat) (ih : ∀ m, m < n + 1 → RC ts k m) : StmtRef ts k (
     simp only [stmts, exec] at he
     generalize hx : eval (progOf ts k) n (applyFilters fs e) l σ = y at he
     obtain ⟨r, σ1⟩ := y
-    have g := A.eval _ il false l σ E [] i top rest r σ1 (good_applyFilters il false fs e hg) hR hN (fun _ => hn) hil hl hσ
+    have g := A.eval _ il false cv l σ E [] i top rest r σ1 (good_applyFilters il false cv fs e hg) hR hN (fun _ => hn) hil hl hσ
       hb hx
     cases r with
     | timeout => simp only [Prod.mk.injEq] at he; exact absurd he.1.symm ho
@@ -140,7 +134,7 @@ theorem rc_stmt (n : Nat) (ih : ∀ m, m < n + 1 → RC ts k m) : StmtRef ts k (
         · exact absurd rfl h
       subst ho'
       -- the state with the pending caller
-      have hlay := call_layer_rel sc bodyArgs body l.mod hg.2
+      have hlay := call_layer_rel sc bodyArgs body l.mod hg.2 hg.1.2
       have hσ1 : StOK { σ with next := ⟨collectDefs
           (.seq (callDefs { sc with top := false } body)
             (.defn 0 bodyArgs { ownLoops := ownsLoops sc body, deco := false, lex := true }
@@ -155,7 +149,7 @@ theorem rc_stmt (n : Nat) (ih : ∀ m, m < n + 1 → RC ts k m) : StmtRef ts k (
           | seq ha _ => cases ha
           | callTag _ hd => exact collectDefs_ok hd
         · exact hl.caller layer h
-      have hR1 : RelC l { σ with next := ⟨collectDefs
+      have hR1 : RelC cv l { σ with next := ⟨collectDefs
           (.seq (callDefs { sc with top := false } body)
             (.defn 0 bodyArgs { ownLoops := ownsLoops sc body, deco := false, lex := true }
               (.seq (.seq (bodyHoist (bodyScope sc body) body) (.prim .getWriter))
@@ -164,8 +158,8 @@ theorem rc_stmt (n : Nat) (ih : ∀ m, m < n + 1 → RC ts k m) : StmtRef ts k (
       simp only [exec] at hwr
       generalize hx : eval (progOf ts k) n3 e l _ = y at hwr
       obtain ⟨r, σ1⟩ := y
-      have g := (ih n3 (by omega)).eval e il true l _ E
-        (((0, ⟨bodyArgs, noFlags, body, .body, E.mod⟩) :: Spec.callDefsOf E.mod body) :: E.caller) i top rest r σ1 hg.1 hR1
+      have g := (ih n3 (by omega)).eval e il true cv l _ E
+        (((0, ⟨bodyArgs, noFlags, body, .body, E.mod⟩) :: Spec.callDefsOf E.mod body) :: E.caller) i top rest r σ1 hg.1.1 hR1
         (NSRel.cons (by rw [← hR.mod]; exact hlay) hR.lcaller) (fun h => by cases h) hil hl hσ1 hb hx
       cases r with
       | timeout => simp only [Prod.mk.injEq] at hwr; exact absurd hwr.1.symm htow
@@ -192,7 +186,7 @@ theorem rc_stmt (n : Nat) (ih : ∀ m, m < n + 1 → RC ts k m) : StmtRef ts k (
     simp only [stmts, exec] at he
     generalize hx : exec (progOf ts k) n (stmts sc a) l σ = y at he
     obtain ⟨o1, l1, σ1⟩ := y
-    have g1 := A.stmt a sc il bf l σ E i top rest o1 l1 σ1 hg.1 hR hn hil hl hσ hb hw hx
+    have g1 := A.stmt a sc il bf cv cb l σ E i top rest o1 l1 σ1 hg.1 hR hn hil hl hσ hb hw hx
     have b1 := (G n).exec _ l σ i top rest ((emits a).stmts sc) hl hσ hb hw o1 l1 σ1 hx
     have stop : o1 ≠ .timeout → o1 ≠ .normal → o = o1 → l' = l1 → σ' = σ1 →
         ∃ out vars', σ'.bufs = (i, top ++ out) :: rest ∧
@@ -211,7 +205,7 @@ theorem rc_stmt (n : Nat) (ih : ∀ m, m < n + 1 → RC ts k m) : StmtRef ts k (
       simp only at he
       obtain ⟨out, v1, hb1, ⟨m1, e1⟩, hv1, hk1, _⟩ := g1 (by simp)
       obtain ⟨bb, hl1, hw1⟩ := b1 (by simp)
-      obtain ⟨out2, v2, hb2, ⟨m2, e2⟩, hv2, hk2, hre2⟩ := A.stmt b sc il bf l1 σ1 { E with vars := v1 } i _ rest o l' σ'
+      obtain ⟨out2, v2, hb2, ⟨m2, e2⟩, hv2, hk2, hre2⟩ := A.stmt b sc il bf cv cb l1 σ1 { E with vars := v1 } i _ rest o l' σ'
         hg.2 (hR.of_bal hb bb hk1 hv1) (bal_next_nil bb hn) hil hl1 bb.ok hb1 hw1 he ho
       refine ⟨out ++ out2, v2, by simp [hb2], ⟨max m1 m2 + 1, fun m hm => ?_⟩, hv2, hk1.trans hk2, hre2⟩
       obtain ⟨m, rfl⟩ := Nat.exists_eq_add_of_le' (by omega : 1 ≤ m)
@@ -229,7 +223,7 @@ theorem rc_stmt (n : Nat) (ih : ∀ m, m < n + 1 → RC ts k m) : StmtRef ts k (
     simp only [stmts, exec] at he
     generalize hx : eval (progOf ts k) n cnd l σ = y at he
     obtain ⟨r, σ1⟩ := y
-    have g := A.eval cnd il false l σ E [] i top rest r σ1 hg.1.1 hR hN (fun _ => hn) hil hl hσ hb hx
+    have g := A.eval cnd il false cv l σ E [] i top rest r σ1 hg.1.1 hR hN (fun _ => hn) hil hl hσ hb hx
     have bg := (G n).eval cnd l σ i top rest hl hσ hb r σ1 hx
     cases r with
     | timeout => simp only [Prod.mk.injEq] at he; exact absurd he.1.symm ho
@@ -246,13 +240,13 @@ theorem rc_stmt (n : Nat) (ih : ∀ m, m < n + 1 → RC ts k m) : StmtRef ts k (
       obtain ⟨o1, hb1, p1, m1, e1⟩ := g (by simp)
       have hσ1 := (bg (by simp)).ok
       have hn1 : σ1.next = [] := by rw [p1.2.2]; exact hn
-      have branch : ∀ tx, Good sc il bf tx = true → exec (progOf ts k) n (stmts sc tx) l σ1 = (o, l', σ') →
+      have branch : ∀ tx, Good sc il bf cv false tx = true → exec (progOf ts k) n (stmts sc tx) l σ1 = (o, l', σ') →
           (if v.isEmpty then tb else ta) = tx →
           ∃ out vars', σ'.bufs = (i, top ++ out) :: rest ∧
             Ev (fun m => Spec.snodes ⟨ts, k⟩ m (.ite cnd ta tb) E σ.cnt) ⟨conv o, out, σ'.cnt, vars'⟩ ∧
             VarsAgree l' vars' ∧ Keep l l' ∧ RetE o := by
         intro tx hcx hex htx
-        obtain ⟨out2, v2, hb2, ⟨m2, e2⟩, hv2, hk2, hre2⟩ := A.stmt tx sc il bf l σ1 E i (top ++ o1) rest o l' σ' hcx
+        obtain ⟨out2, v2, hb2, ⟨m2, e2⟩, hv2, hk2, hre2⟩ := A.stmt tx sc il bf cv false l σ1 E i (top ++ o1) rest o l' σ' hcx
           (hR.of_post hb hb1 p1) hn1 hil hl hσ1 hb1 hw hex ho
         refine ⟨o1 ++ out2, v2, by simp [hb2], ⟨max m1 m2 + 1, fun m hm => ?_⟩, hv2, hk2, hre2⟩
         obtain ⟨m, rfl⟩ := Nat.exists_eq_add_of_le' (by omega : 1 ≤ m)
@@ -269,7 +263,7 @@ theorem rc_stmt (n : Nat) (ih : ∀ m, m < n + 1 → RC ts k m) : StmtRef ts k (
     simp only [stmts, exec] at he
     generalize hx : exec (progOf ts k) n (stmts sc ta) l σ = y at he
     obtain ⟨o1, l1, σ1⟩ := y
-    have g1 := A.stmt ta sc il bf l σ E i top rest o1 l1 σ1 hg.1 hR hn hil hl hσ hb hw hx
+    have g1 := A.stmt ta sc il bf cv false l σ E i top rest o1 l1 σ1 hg.1 hR hn hil hl hσ hb hw hx
     have b1 := (G n).exec _ l σ i top rest ((emits ta).stmts sc) hl hσ hb hw o1 l1 σ1 hx
     have stop : o1 ≠ .timeout → (∀ x, o1 ≠ .exc x) → o = o1 → l' = l1 → σ' = σ1 →
         ∃ out vars', σ'.bufs = (i, top ++ out) :: rest ∧
@@ -288,7 +282,7 @@ theorem rc_stmt (n : Nat) (ih : ∀ m, m < n + 1 → RC ts k m) : StmtRef ts k (
       simp only at he
       obtain ⟨out, v1, hb1, ⟨m1, e1⟩, hv1, hk1, _⟩ := g1 (by simp)
       obtain ⟨bb, hl1, hw1⟩ := b1 (by simp)
-      obtain ⟨out2, v2, hb2, ⟨m2, e2⟩, hv2, hk2, hre2⟩ := A.stmt tb sc il bf l1 σ1 { E with vars := v1 } i _ rest o l' σ'
+      obtain ⟨out2, v2, hb2, ⟨m2, e2⟩, hv2, hk2, hre2⟩ := A.stmt tb sc il bf cv false l1 σ1 { E with vars := v1 } i _ rest o l' σ'
         hg.2 (hR.of_bal hb bb hk1 hv1) (bal_next_nil bb hn) hil hl1 bb.ok hb1 hw1 he ho
       refine ⟨out ++ out2, v2, by simp [hb2], ⟨max m1 m2 + 1, fun m hm => ?_⟩, hv2, hk1.trans hk2, hre2⟩
       obtain ⟨m, rfl⟩ := Nat.exists_eq_add_of_le' (by omega : 1 ≤ m)
@@ -319,7 +313,7 @@ theorem rc_stmt (n : Nat) (ih : ∀ m, m < n + 1 → RC ts k m) : StmtRef ts k (
       · rename_i hlt
         generalize hy : exec (progOf ts k) n (stmts sc body) l { σ with cnt := σ.cnt + 1 } = z at he
         obtain ⟨o2, l2, σ2⟩ := z
-        have g2 := A.stmt body sc il bf l { σ with cnt := σ.cnt + 1 } E i top rest o2 l2 σ2 hg (hR.of_cnt (σ.cnt + 1)) hn hil
+        have g2 := A.stmt body sc il bf cv false l { σ with cnt := σ.cnt + 1 } E i top rest o2 l2 σ2 hg (hR.of_cnt (σ.cnt + 1)) hn hil
           hl hσ1 hb1 hw hy
         have b2 := (G n).exec _ l _ i top rest ((emits body).stmts sc) hl hσ1 hb1 hw o2 l2 σ2 hy
         have stop : ∀ so, o2 ≠ .timeout → o2 ≠ .normal → o2 ≠ .cont →
@@ -343,7 +337,7 @@ theorem rc_stmt (n : Nat) (ih : ∀ m, m < n + 1 → RC ts k m) : StmtRef ts k (
           have hto : o2 ≠ .timeout := by rcases h1 with rfl | rfl <;> simp
           obtain ⟨out, v1, hb2, ⟨m1, e1⟩, hv1, hk1, _⟩ := g2 hto
           obtain ⟨bb, hl2, hw2⟩ := b2 hto
-          obtain ⟨out2, v2, hb3, ⟨m2, e2⟩, hv2, hk2, hre2⟩ := A.stmt (.while_ wm body) sc il bf l2 σ2 { E with vars := v1 }
+          obtain ⟨out2, v2, hb3, ⟨m2, e2⟩, hv2, hk2, hre2⟩ := A.stmt (.while_ wm body) sc il bf cv cb l2 σ2 { E with vars := v1 }
             i _ rest o l' σ' (by simpa [Good] using hg) ((hR.of_cnt (σ.cnt + 1)).of_bal hb1 bb hk1 hv1) (bal_next_nil bb hn) hil hl2
             bb.ok hb2 hw2 he2 ho
           refine ⟨out ++ out2, v2, by simp [hb3], ⟨max m1 m2 + 1, fun m hm => ?_⟩, hv2, hk1.trans hk2, hre2⟩
@@ -387,7 +381,7 @@ theorem rc_stmt (n : Nat) (ih : ∀ m, m < n + 1 → RC ts k m) : StmtRef ts k (
       simp only [exec] at he
       generalize hx : evalArgs (progOf ts k) n1 items l σ = y at he
       obtain ⟨r, σ1⟩ := y
-      have ga := (ih n1 (by omega)).args items il false l σ E [] i top rest r σ1 hgi hR hN (fun _ => hn) hil hl hσ hb hx
+      have ga := (ih n1 (by omega)).args items il false cv l σ E [] i top rest r σ1 hgi hR hN (fun _ => hn) hil hl hσ hb hx
       have bga := (G n1).args items l σ i top rest hl hσ hb r σ1 hx
       cases r with
       | timeout => simp only [Prod.mk.injEq] at he; exact absurd he.1.symm ho
@@ -414,13 +408,12 @@ theorem rc_stmt (n : Nat) (ih : ∀ m, m < n + 1 → RC ts k m) : StmtRef ts k (
           rintro rfl
           simp only [Prod.mk.injEq] at he
           exact ho he.1.symm
-        have hR2 : RelC l { σ1 with loops := ⟨vs, 0⟩ :: σ1.loops }
+        have hR2 : RelC cv l { σ1 with loops := ⟨vs, 0⟩ :: σ1.loops }
             { E with loops := if true then 0 :: E.loops else E.loops } := by
           obtain ⟨base, hbase⟩ := hR1.loops
-          obtain ⟨ns, hns, hrel⟩ := hR1.cview
-          exact ⟨hR1.vars, ⟨base, by simp [hbase]⟩, hR1.nb, hR1.nf, hR1.funs, hR1.mod, ⟨ns, hns, hrel⟩, hR1.lcaller⟩
-        have hgb' : Good sc true bf body = true := by simpa [hcond] using hgb
-        obtain ⟨out2, v2, hb2, ⟨m2, e2⟩, hv2, hk2, hre2⟩ := (ih n2 (by omega)).iter x vs body sc true bf true 0 l _ E i
+          exact ⟨hR1.vars, ⟨base, by simp [hbase]⟩, hR1.nb, hR1.nf, hR1.funs, hR1.mod, hR1.cview, hR1.lcaller⟩
+        have hgb' : Good sc true bf cv false body = true := by simpa [hcond] using hgb
+        obtain ⟨out2, v2, hb2, ⟨m2, e2⟩, hv2, hk2, hre2⟩ := (ih n2 (by omega)).iter x vs body sc true bf cv false true 0 l _ E i
           (top ++ o1) rest o2 l2 σ2 hgb' hR2 hn1 (fun _ => .inl rfl) hl (hσ1.of_eq rfl rfl) hb1 hw hy hto
         obtain ⟨bt, hl2, hw2⟩ := (G n2).iter x vs (stmts sc body) true l { σ1 with loops := ⟨vs, 0⟩ :: σ1.loops } i
           (top ++ o1) rest ((emits body).stmts sc) hl (hσ1.of_eq rfl rfl) hb1 hw o2 l2 σ2 hy hto
@@ -455,7 +448,7 @@ theorem rc_stmt (n : Nat) (ih : ∀ m, m < n + 1 → RC ts k m) : StmtRef ts k (
       simp only [exec] at he
       generalize hx : evalArgs (progOf ts k) n items l σ = y at he
       obtain ⟨r, σ1⟩ := y
-      have ga := A.args items il false l σ E [] i top rest r σ1 hgi hR hN (fun _ => hn) hil hl hσ hb hx
+      have ga := A.args items il false cv l σ E [] i top rest r σ1 hgi hR hN (fun _ => hn) hil hl hσ hb hx
       have bga := (G n).args items l σ i top rest hl hσ hb r σ1 hx
       cases r with
       | timeout => simp only [Prod.mk.injEq] at he; exact absurd he.1.symm ho
@@ -473,10 +466,10 @@ theorem rc_stmt (n : Nat) (ih : ∀ m, m < n + 1 → RC ts k m) : StmtRef ts k (
         have hσ1 := (bga (by simp)).ok
         have hR1 := hR.of_post hb hb1 p1
         have hn1 : σ1.next = [] := by rw [p1.2.2]; exact hn
-        have hR2 : RelC l σ1 { E with loops := if false then 0 :: E.loops else E.loops } :=
+        have hR2 : RelC cv l σ1 { E with loops := if false then 0 :: E.loops else E.loops } :=
           ⟨hR1.vars, hR1.loops, hR1.nb, hR1.nf, hR1.funs, hR1.mod, hR1.cview, hR1.lcaller⟩
-        have hgb' : Good sc il bf body = true := by simpa [hcf] using hgb
-        obtain ⟨out2, v2, hb2, ⟨m2, e2⟩, hv2, hk2, hre2⟩ := A.iter x vs body sc il bf false 0 l σ1 E i (top ++ o1) rest
+        have hgb' : Good sc il bf cv false body = true := by simpa [hcf] using hgb
+        obtain ⟨out2, v2, hb2, ⟨m2, e2⟩, hv2, hk2, hre2⟩ := A.iter x vs body sc il bf cv false false 0 l σ1 E i (top ++ o1) rest
           o l' σ' hgb' hR2 hn1 (fun h => .inr (hil h)) hl hσ1 hb1 hw he ho
         refine ⟨o1 ++ out2, v2, by simp [hb2], ⟨max m1 m2 + 1, fun m hm => ?_⟩, hv2, hk2, hre2⟩
         obtain ⟨m, rfl⟩ := Nat.exists_eq_add_of_le' (by omega : 1 ≤ m)
@@ -538,7 +531,7 @@ theorem rc_stmt (n : Nat) (ih : ∀ m, m < n + 1 → RC ts k m) : StmtRef ts k (
         simp [convV, conv]
 
 theorem rc_iter (n : Nat) (ih : ∀ m, m < n + 1 → RC ts k m) : IterRef ts k (n + 1) := by
-  intro x vs body sc il bf ctx idx l σ E i top rest o l' σ' hg hR hn hil hl hσ hb hw he ho
+  intro x vs body sc il bf cv cb ctx idx l σ E i top rest o l' σ' hg hR hn hil hl hσ hb hw he ho
   have A := ih n (Nat.lt_succ_self n)
   have G := all_good (progOf ts k) (codegen_cfg_ok ts k) n
   cases vs with
@@ -552,11 +545,10 @@ theorem rc_iter (n : Nat) (ih : ∀ m, m < n + 1 → RC ts k m) : IterRef ts k (
     generalize hx : exec (progOf ts k) n (stmts sc body) { l with vars := (x, v) :: l.vars } σ = y at he
     obtain ⟨o1, l1, σ1⟩ := y
     have hl0 : LocOK { l with vars := (x, v) :: l.vars } := ⟨hl.funs, hl.caller, hl.lexc⟩
-    have hR0 : RelC { l with vars := (x, v) :: l.vars } σ
-        { E with vars := (x, v) :: E.vars, loops := if ctx then idx :: E.loops else E.loops } := by
-      obtain ⟨ns, hns, hrel⟩ := hR.cview
-      exact ⟨fun y => (by simp only [lookup]; split; rfl; exact hR.vars y), hR.loops, hR.nb, hR.nf, hR.funs, hR.mod,
-        ⟨ns, hns, hrel⟩, hR.lcaller⟩
+    have hR0 : RelC cv { l with vars := (x, v) :: l.vars } σ
+        { E with vars := (x, v) :: E.vars, loops := if ctx then idx :: E.loops else E.loops } :=
+      ⟨fun y => (by simp only [lookup]; split; rfl; exact hR.vars y), hR.loops, hR.nb, hR.nf, hR.funs, hR.mod,
+        hR.cview, hR.lcaller⟩
     have hil0 : il = true → (if ctx then idx :: E.loops else E.loops) ≠ [] := by
       intro h
       rcases hil h with rfl | h2
@@ -566,7 +558,7 @@ theorem rc_iter (n : Nat) (ih : ∀ m, m < n + 1 → RC ts k m) : IterRef ts k (
         Ev (fun m => Spec.snodes ⟨ts, k⟩ m body
               { E with vars := (x, v) :: E.vars, loops := if ctx then idx :: E.loops else E.loops } σ.cnt)
           ⟨conv o1, out, σ1.cnt, vars'⟩ ∧ VarsAgree l1 vars' ∧ Keep { l with vars := (x, v) :: l.vars } l1 ∧ RetE o1 :=
-      fun h1 => A.stmt body sc il bf _ σ _ i top rest o1 l1 σ1 hg hR0 hn hil0 hl0 hσ hb hw hx h1
+      fun h1 => A.stmt body sc il bf cv cb _ σ _ i top rest o1 l1 σ1 hg hR0 hn hil0 hl0 hσ hb hw hx h1
     have b1 : o1 ≠ .timeout → Bal i top rest σ σ1 ∧ LocOK l1 ∧ l1.writer = i :=
       fun h1 => G.exec _ _ σ i top rest ((emits body).stmts sc) hl0 hσ hb hw o1 l1 σ1 hx h1
     have stop : ∀ (o2 : Spec.SOut), o1 ≠ .timeout → o1 ≠ .normal → o1 ≠ .cont →
@@ -599,15 +591,14 @@ theorem rc_iter (n : Nat) (ih : ∀ m, m < n + 1 → RC ts k m) : IterRef ts k (
         · exact bb.ok.of_eq rfl rfl
         · exact bb.ok
       have r0 := hR0.of_bal hb bb hk1 hv1
-      have hR1 : RelC l1 (if ctx = true then { σ1 with loops := bumpTop σ1.loops } else σ1)
+      have hR1 : RelC cv l1 (if ctx = true then { σ1 with loops := bumpTop σ1.loops } else σ1)
           { ({ E with vars := v1 } : Spec.Env) with loops := if ctx then (idx + 1) :: E.loops else E.loops } := by
-        obtain ⟨ns, hns, hrel⟩ := r0.cview
         cases ctx with
-        | false => exact ⟨r0.vars, r0.loops, r0.nb, r0.nf, r0.funs, r0.mod, ⟨ns, hns, hrel⟩, r0.lcaller⟩
+        | false => exact ⟨r0.vars, r0.loops, r0.nb, r0.nf, r0.funs, r0.mod, r0.cview, r0.lcaller⟩
         | true =>
           simp only [if_true] at r0 ⊢
           obtain ⟨base, hbase⟩ := r0.loops
-          refine ⟨r0.vars, ⟨base, ?_⟩, r0.nb, r0.nf, r0.funs, r0.mod, ⟨ns, hns, hrel⟩, r0.lcaller⟩
+          refine ⟨r0.vars, ⟨base, ?_⟩, r0.nb, r0.nf, r0.funs, r0.mod, r0.cview, r0.lcaller⟩
           exact bump_index _ idx (E.loops ++ base) (by simpa using hbase)
       have hn1' : (if ctx = true then { σ1 with loops := bumpTop σ1.loops } else σ1).next = [] := by
         have := bal_next_nil bb hn
@@ -616,7 +607,7 @@ theorem rc_iter (n : Nat) (ih : ∀ m, m < n + 1 → RC ts k m) : IterRef ts k (
         split <;> exact hb1
       have hc1 : (if ctx = true then { σ1 with loops := bumpTop σ1.loops } else σ1).cnt = σ1.cnt := by
         split <;> rfl
-      obtain ⟨out2, v2, hb2, ⟨m2, e2⟩, hv2, hk2, hre2⟩ := A.iter x vs body sc il bf ctx (idx + 1) l1 _ { E with vars := v1 }
+      obtain ⟨out2, v2, hb2, ⟨m2, e2⟩, hv2, hk2, hre2⟩ := A.iter x vs body sc il bf cv cb ctx (idx + 1) l1 _ { E with vars := v1 }
         i _ rest o l' σ' hg hR1 hn1' hil hl1 hσ1' hb1' hw1 he2 ho
       refine ⟨out ++ out2, v2, by simp [hb2], ⟨max m1 m2 + 1, fun m hm => ?_⟩, hv2, hk1'.trans hk2, hre2⟩
       obtain ⟨m, rfl⟩ := Nat.exists_eq_add_of_le' (by omega : 1 ≤ m)
